@@ -80,6 +80,9 @@ func c05Catalogue() []c05Val {
 		{"struct", struct{ X int }{1}}, {"map", map[string]interface{}{"a": 1}}, {"*struct", &struct{ X int }{2}}, {"complex", complex(1, 2)}, {"[]byte", []byte("hi")}, {"rune", 'x'},
 		{"string Inf", "Inf"}, {"string -Infinity", "-Infinity"}, {"string +Inf", "+Inf"},
 		// instants Go's time.Parse accepts although they are not written the RFC 3339 way (one-digit hour, comma fraction)
+		// Go times no RFC 3339 text can carry (five-digit or negative years, also reached through the offset)
+		{"time year 10000", time.Date(10000, 1, 1, 0, 0, 0, 0, time.UTC)}, {"time year -1", time.Date(-1, 6, 1, 0, 0, 0, 0, time.UTC)},
+		{"time 9999 end west", time.Date(9999, 12, 31, 23, 59, 59, 0, time.FixedZone("w", -3600))}, {"time year 9999", time.Date(9999, 12, 31, 23, 59, 59, 0, time.UTC)},
 		{"string time 1-digit hour", "2019-10-05T9:53:17Z"}, {"string time comma fraction", "2019-10-05T09:53:17,25Z"}, {"string time offset", "2019-10-05T09:53:17.5+02:00"},
 	}
 }
